@@ -44,6 +44,9 @@ def _measure(ctx, args):
         ok = ctx.model.call('tableau_ok', got)
         if ok != 1:
             return {'kind': 'oracle', 'where': 'np:measure breaks the tableau invariant', 'observed': got, 'expected': 'valid tableau', 'tags': tags}
+    inv = S.tableau_invariant_py(got)
+    if inv:
+        return {'kind': 'oracle', 'where': 'np:measure breaks the tableau invariant: ' + inv, 'observed': got, 'expected': 'valid tableau', 'tags': tags}
     if n <= 4:
         rho0 = S.rho(t)
         want = rho0
